@@ -296,6 +296,48 @@ def check_extractors(m, eq):
     return res
 
 
+def check_unused_exact(m, eq):
+    """remove_unused_parameters_and_rvs removes exactly the parameters / random variables without influence on any
+    statement: three unused objects are added; after removal exactly those must be gone, and every parameter or random
+    variable that was removed must be semantically irrelevant (z3) for every statement value and ODE right-hand side."""
+    pm, sympy, semeq = _W['pm'], _W['sympy'], _W['semeq']
+    from pharmpy.model import NormalDistribution, Parameter, Parameters
+    params = Parameters.create(list(m.parameters) + [Parameter.create('UNUSED_THETA', 0.5),
+                                                     Parameter.create('OMEGA_UNUSED', 0.1)])
+    rvs = m.random_variables + NormalDistribution.create('ETA_UNUSED', 'IIV', 0, 'OMEGA_UNUSED')
+    m1 = m.replace(parameters=params, random_variables=rvs)
+    m2 = pm.remove_unused_parameters_and_rvs(m1)
+    res = []
+    gone_p = set(m1.parameters.names) - set(m2.parameters.names)
+    gone_r = set(m1.random_variables.names) - set(m2.random_variables.names)
+    d = model_function(m1)
+    exprs = list(d.env.values()) + list(d.odes.values())
+    used = set()
+    for e in exprs:
+        used |= {str(x) for x in e.free_symbols}
+    # soundness: nothing with semantic influence is removed
+    for name in sorted(gone_p | gone_r):
+        for e in exprs:
+            r, info = semeq.depends_semantically(eq, e, sympy.Symbol(name))
+            if r == 'dependent':
+                res.append(('unused.sound', 'violated', dict(removed=name, expression=str(e)[:200], witness=info)))
+                break
+    # exactness: the three added objects are removed; nothing syntactically used is removed; what is neither used nor
+    # the variance of a used random variable nor fixed to zero is removed
+    expect_gone = {'UNUSED_THETA', 'OMEGA_UNUSED', 'ETA_UNUSED'}
+    missing = expect_gone - (gone_p | gone_r)
+    if missing:
+        res.append(('unused.exact', 'violated', dict(not_removed=sorted(missing))))
+    wrongly = {n for n in (gone_p | gone_r) if n in used}
+    if wrongly:
+        res.append(('unused.exact', 'violated', dict(removed_but_used=sorted(wrongly))))
+    if not res:
+        res.append(('unused.exact', 'discharged', None))
+    r2 = compare(m, m2, {}, [], eq)
+    return res + [('unused.' + o, v, dd) for o, v, dd in r2 if v != 'discharged'] + \
+        [('unused.function_preserved', 'discharged', None)] * (0 if any(v == 'violated' for _, v, _ in r2) else 1)
+
+
 def run_case(case):
     if not _W:
         _init()
@@ -317,6 +359,8 @@ def run_case(case):
             res = check_solve(m, eq)
         elif rname == 'extractors':
             res = check_extractors(m, eq)
+        elif rname == 'unused_exact':
+            res = check_unused_exact(m, eq)
         else:
             try:
                 m2, ren, extra = refactorings()[rname](m)
@@ -354,7 +398,7 @@ def main():
     budget = 1500 if thorough else 230
     _init()
     models = start_models(thorough)
-    rnames = list(refactorings()) + ['solve_ode_system', 'extractors']
+    rnames = list(refactorings()) + ['solve_ode_system', 'extractors', 'unused_exact']
     cases = []
     for label, m in models:
         vs = variants(label, m)
